@@ -247,9 +247,13 @@ def table_scenarios(rnd, n):
         elif r < 0.5:
             scen.append(dict(kind="qcons", op="ctor", side="q", a=mag(), b={"v": [1, 1], "e": []}, p=[1, 1], ua=ua, ub=ub))
         elif r < 0.7:
-            b = mag()
-            b["v"][0] = abs(b["v"][0]) + 500          # divisor interval stays away from zero (|e| <= 400)
-            scen.append(dict(kind="qdiv", op="div", side="qq", a=mag(), b=b, p=[1, 1], ua=ua, ub=ub))
+            # small rationals: TLC computes the first-order bound of the quotient exactly (32-bit integers)
+            def small(sign=True):
+                v = [(rnd.choice([1, -1]) if sign else 1) * rnd.randint(3, 60), rnd.choice([1, 2, 4])]
+                e = [rnd.randint(0, 5), rnd.choice([1, 2, 4, 8])] if rnd.random() < 0.8 else []
+                return {"v": v, "e": e}
+            a_, b = small(), small()
+            scen.append(dict(kind="qdiv", op="div", side="qq", a=a_, b=b, p=[1, 1], ua=ua, ub=ub))
         else:
             scen.append(dict(kind="qsum", op=rnd.choice(["add", "sub"]), side="qq", a=mag(), b=mag(), p=[1, 1], ua=ua, ub=ub))
     return {"units": {u: {"dim": list(dimof[u]), "fac": []} for u in sorted(used)}, "scenarios": scen}
